@@ -446,8 +446,12 @@ pub fn accepts(prop: &str, v: &Viol, ops: &[OpRec]) -> bool {
             "not_released",
         ]) || (p == "stuck_illegit" && v.detail.contains("the channel is closed"))
             // "the first close() succeeds": a close() that spins for ever does not
+            // and so does an operation begun after close() returned: it must fail, not hang
             || ((p == "livelock" || p == "waited_inside_critical_section")
-                && opk.map_or(false, |o| o.k == K::Close))
+                && opk.map_or(false, |o| {
+                    o.k == K::Close
+                        || ops.iter().any(|c| c.k == K::Close && c.res == Res::Unit && c.ret != 0 && c.ret < o.inv)
+                }))
             // the fate of values of operations that were pending at, or begun after, a close
             || (in_list(LEDGER_ALL) && {
                 let close_inv = ops
